@@ -536,6 +536,24 @@ def _fam_flat(rng, n, spec):
     return f, g, dict(convex=False, complex_safe=False)
 
 
+def _fam_qp_indefinite(rng, n, spec):
+    """A quadratic with eigenvalues of both signs: unbounded below wherever the box leaves a direction of negative curvature open. A run
+    follows it to magnitudes at which products of gradients overflow."""
+    Q, _ = np.linalg.qr(rng.standard_normal((n, n)))
+    ev = rng.standard_normal(n) * np.exp(rng.uniform(0, 3, n))
+    A = (Q * ev) @ Q.T
+    A = (A + A.T) / 2
+    b = rng.standard_normal(n)
+
+    def f(x):
+        return float(0.5 * (x @ (A @ x)) - b @ x)
+
+    def g(x):
+        return A @ x - b
+
+    return f, g, dict(convex=False, complex_safe=False, unbounded_below=True)
+
+
 def _fam_quantized(rng, n, spec):
     """A smooth QP reported with finite resolution (plateaus): trial values can tie with the start value exactly."""
     A = rand_spd(rng, n, float(spec.get("cond", 30.0)))
@@ -573,6 +591,7 @@ _FAMILIES = {
     "quartic": _fam_quartic,
     "sphere": _fam_sphere,
     "flat": _fam_flat,
+    "qp_indefinite": _fam_qp_indefinite,
     "qp_subnormal": _fam_qp_subnormal,
     "quantized": _fam_quantized,
 }
